@@ -235,6 +235,72 @@ func matchKnown(known []knownFinding, prop string, v vexec.Violation) *knownFind
 	return nil
 }
 
+// crossSolver replays the recorded transcript of one worker on cvc5 and
+// compares the verdict sequence with z3's.
+func crossSolver(path string, bv bool) (compared, disagreements, skipped int, note string) {
+	b, err := os.ReadFile(path)
+	if err != nil {
+		return 0, 0, 0, "no transcript"
+	}
+	var z3v []string
+	var sb strings.Builder
+	sb.WriteString("(set-logic ALL)\n")
+	// cvc5's parser scopes declarations with push/pop: hoist them to the top
+	seenDecl := map[string]bool{}
+	for _, line := range strings.Split(string(b), "\n") {
+		if strings.HasPrefix(line, "(declare-const") && !seenDecl[line] {
+			seenDecl[line] = true
+			sb.WriteString(line)
+			sb.WriteByte('\n')
+		}
+	}
+	for _, line := range strings.Split(string(b), "\n") {
+		switch {
+		case strings.HasPrefix(line, "(declare-const"):
+		case strings.HasPrefix(line, ";; verdict "):
+			z3v = append(z3v, strings.TrimPrefix(line, ";; verdict "))
+		case strings.HasPrefix(line, "(set-option"):
+		case strings.HasPrefix(line, "(get-value"):
+		case strings.HasPrefix(line, ";;"):
+		default:
+			sb.WriteString(line)
+			sb.WriteByte('\n')
+		}
+	}
+	in := strings.TrimSuffix(path, ".smt2") + ".cvc5.smt2"
+	os.WriteFile(in, []byte(sb.String()), 0o644)
+	defer os.Remove(in)
+	cmd := exec.Command("timeout", "600", "cvc5", "--incremental", "--global-declarations", "--fp-exp", "--tlimit-per=10000", "-q", in)
+	out, _ := cmd.CombinedOutput()
+	var cv []string
+	for _, line := range strings.Split(string(out), "\n") {
+		line = strings.TrimSpace(line)
+		if line == "sat" || line == "unsat" || line == "unknown" {
+			cv = append(cv, line)
+		}
+	}
+	n := len(z3v)
+	if len(cv) < n {
+		skipped = n - len(cv)
+		n = len(cv)
+	}
+	for i := 0; i < n; i++ {
+		a, c := z3v[i], cv[i]
+		if a == "unknown" || a == "error" || c == "unknown" {
+			skipped++
+			continue
+		}
+		compared++
+		if a != c {
+			disagreements++
+			if note == "" {
+				note = fmt.Sprintf("query %d: z3 %s, cvc5 %s", i, a, c)
+			}
+		}
+	}
+	return
+}
+
 func tierOK(h *vexec.Harness, tier string) bool {
 	switch h.Tier {
 	case "":
@@ -282,6 +348,13 @@ func runCheck(opt vexec.Options, prop string, seed int64, verif string) int {
 	}
 	defer os.RemoveAll(tmp)
 	nr := &nativeRunner{tmp: tmp, eng: eng, verif: verif}
+	crossDir := ""
+	if opt.Tier == "thorough" || os.Getenv("VSYM_CROSSCHECK") != "" {
+		crossDir = filepath.Join(tmp, "cross")
+		os.MkdirAll(crossDir, 0o755)
+		eng.Opt.CrossCheck = crossDir
+	}
+	crossCompared, crossDisagree, crossSkipped := 0, 0, 0
 	known := loadKnown(verif)
 	replayDir := filepath.Join(verif, "replays", prop)
 	os.RemoveAll(replayDir)
@@ -357,6 +430,16 @@ func runCheck(opt vexec.Options, prop string, seed int64, verif string) int {
 			fmt.Printf("  BOUND-HIT x%d: %s\n", v, k)
 		}
 
+		if crossDir != "" {
+			c, d, sk, note := crossSolver(filepath.Join(crossDir, h.Name+".smt2"), h.ModeBV)
+			crossCompared += c
+			crossDisagree += d
+			crossSkipped += sk
+			if d > 0 {
+				broken = append(broken, fmt.Sprintf("%s: z3 and cvc5 disagree on %d of %d replayed queries (%s)", h.Name, d, c, note))
+			}
+			fmt.Printf("  cross-solver: %d queries replayed on cvc5, %d disagreements, %d skipped (unknown/timeout)\n", c, d, sk)
+		}
 		// expected-violation twins (vacuity guards)
 		if strings.HasPrefix(h.Expect, "violation") {
 			if len(r.ViolCount) == 0 {
@@ -547,6 +630,7 @@ func runCheck(opt vexec.Options, prop string, seed int64, verif string) int {
 		"witnesses":                     witnesses,
 		"native_validation_failures":    validationFailures,
 		"known_finding_hits":            knownHits,
+		"cross_solver":                  map[string]int{"queries_replayed_on_cvc5": crossCompared, "disagreements": crossDisagree, "skipped_unknown_or_timeout": crossSkipped},
 		"broken":                        broken,
 		"load_s":                        eng.LoadTime.Seconds(),
 		"native_build_s":                nr.buildS,
